@@ -469,6 +469,12 @@ class Singleton(object):
     def __deepcopy__(self, memo):
         return self
 
+    def __reduce__(self):
+        # Pickled by reference to the module-level instance (repr() is its
+        # name: MARKER, NA, REMOVE), so that unpickling gives back the one
+        # instance that "is MARKER" / "is NA" / "is REMOVE" tests look for.
+        return repr(self)
+
     def __hash__(self):
         return hash(self.__class__)
 
